@@ -387,6 +387,19 @@ def rule_strict_compare(ctx):
             def is_old(p):
                 return fi.params[0] in p.params and "created" in [c for c in p.consts if isinstance(c, str)]
             ok = (is_new(pl) and is_old(pr_) and isinstance(op, ast.LtE)) or (is_old(pl) and is_new(pr_) and isinstance(op, ast.GtE))
+            # ... and what is compared are the INSTANTS (the values parse_into_datetime returned), not something computed from
+            # them: serialised 2.1 timestamps have 3 to 6 fraction digits and do not order like the instants ('...00.001Z' vs
+            # '...00.0015Z')
+            from ..cfg import ReachingDefs, cfg_of
+            g_ = cfg_of(fi)
+            rd_ = ReachingDefs(g_, fi.all_param_names())
+            for side in (t.left, t.comparators[0]):
+                inst = isinstance(side, ast.Name) and all(isinstance(v, ast.Call) and call_simple_name(v) == "parse_into_datetime"
+                                                          for _d, v in rd_.reaching(g_.node_of(tests[0]), side.id)) \
+                    and bool(rd_.reaching(g_.node_of(tests[0]), side.id))
+                if not inst:
+                    ok = False
+                    found = "%s  (operand %s is not the parsed instant itself)" % (norm(t), norm(side))
     run.check(ok, R, key(rel, fi.qualname, "supplied-modified-strictly-later"),
               "a caller-supplied modified time equal to (or earlier than) the current one is accepted", file=rel,
               line=tests[0].lineno if tests else fi.node.lineno, function=fi.qualname,
